@@ -34,6 +34,16 @@ except Exception:  # pragma: no cover - compiler is optional
 logger = logging.getLogger("rbacx.engine")
 
 
+def _canon_text(v: Any) -> str:
+    """Order-insensitive text of a value that keeps values of different types apart."""
+    if isinstance(v, dict):
+        items = sorted((repr(k), _canon_text(x)) for k, x in v.items())
+        return "{" + ",".join(f"{k}:{x}" for k, x in items) + "}"
+    if isinstance(v, (list, tuple)):
+        return ("[" if isinstance(v, list) else "(") + ",".join(_canon_text(x) for x in v) + "]"
+    return f"{type(v).__module__}.{type(v).__qualname__}:{v!r}"
+
+
 def _now() -> float:
     """Monotonic time for durations."""
     return time.perf_counter()
@@ -122,16 +132,21 @@ class Guard:
 
         - sort_keys=True ensures a stable order
         - separators reduce size
-        - default=str avoids TypeErrors for non-JSON types by stringifying them.
+        - envs holding non-JSON values (e.g. datetime) get a type-tagged canonical text instead,
+          so a value never shares a key with the string it prints as.
         - ensure_ascii=False preserves unicode while keeping key stable
         Security: Do NOT put secrets into keys for shared caches. The default
         in-memory cache is per-process and per-Guard; for external caches,
         ensure transport-level protections.
         """
         try:
-            return json.dumps(
-                env, sort_keys=True, separators=(",", ":"), default=str, ensure_ascii=False
-            )
+            # Plain JSON values only: without default= a datetime cannot be mistaken for the
+            # string that spells it (they are decided differently, so they must not share a key).
+            return json.dumps(env, sort_keys=True, separators=(",", ":"), ensure_ascii=False)
+        except Exception:
+            pass
+        try:
+            return "!" + _canon_text(env)
         except Exception:
             # As a last resort, fall back to repr which is deterministic for basic containers.
             return repr(env)
